@@ -145,6 +145,8 @@ Example bad_setresult_in_login :
 Proof. vm_compute. reflexivity. Qed.
 Example bad_long_pattern : rules (mk [(PM_LOG_IN, [Expect (repeat 97%N 257)])]) = [R_PATTERN].
 Proof. vm_compute. reflexivity. Qed.
+Example bad_empty_block : rules (mk [login_ok; (PM_POWER_ON_ALL, [ForeachPlug []])]) = [R_EMPTY].
+Proof. vm_compute. reflexivity. Qed.
 Example failure_is_located :
   spec_failures (mk [login_ok; (PM_POWER_OFF_ALL, [Send (S "off *"); ForeachPlug [Expect (S "ok"); Send (S "%d")]])])
   = [mkFail R_SEND PM_POWER_OFF_ALL [1; 1]%nat].
